@@ -7,12 +7,17 @@
 -/
 import SchedVerif.Driver.Parse
 import SchedVerif.Driver.SpecCmd
+import SchedVerif.Driver.AParse
 open SV SV.Drv
 
 def words (line : String) : List String :=
   (line.splitOn " ").filter (fun w => w != "")
 
-def handle (st : State) (line : String) : State × String :=
+structure DState where
+  thr : State
+  aio : AState
+
+def handleThr (st : State) (line : String) : State × String :=
   match words line with
   | [] => (st, "")
   | "S" :: rest =>
@@ -30,7 +35,20 @@ def handle (st : State) (line : String) : State × String :=
       | some o => let (st', out) := step st o; (st', showOut st' out)
       | none => (st, "bad-op")
 
-partial def loop (h : IO.FS.Stream) (out : IO.FS.Stream) (st : State) : IO Unit := do
+def handle (st : DState) (line : String) : DState × String :=
+  match words line with
+  | "A" :: rest =>
+      match runP (do let tz ← optInt; let now ← int; let d ← runScript; pure (tz, now, d)) rest with
+      | some (tz, now, d) => ({ st with aio := { tz := tz, now := now, dflt := d } }, "A ok")
+      | none => (st, "bad-op")
+  | w :: rest =>
+      if w == "asch" || w == "arun" || w == "adel" || w == "adtags" || w == "aget" || w == "ajobs" then
+        let (a, o) := ahandle st.aio (w :: rest); ({ st with aio := a }, o)
+      else
+        let (t, o) := handleThr st.thr line; ({ st with thr := t }, o)
+  | [] => (st, "")
+
+partial def loop (h : IO.FS.Stream) (out : IO.FS.Stream) (st : DState) : IO Unit := do
   let line ← h.getLine
   if line.isEmpty then return ()
   let (st', o) := handle st (line.trimAscii.toString)
@@ -40,4 +58,4 @@ partial def loop (h : IO.FS.Stream) (out : IO.FS.Stream) (st : State) : IO Unit 
 def main : IO Unit := do
   let stdin ← IO.getStdin
   let stdout ← IO.getStdout
-  loop stdin stdout { tz := none, maxExec := 0, prio := .linear }
+  loop stdin stdout { thr := { tz := none, maxExec := 0, prio := .linear }, aio := { tz := none, now := 0 } }
